@@ -304,6 +304,16 @@ def main(mod, tier, seed, replay=None, shards=None, examples=None):
                 if f is not None:
                     failures.append(f)
 
+    # ---- 4b. top-up: a mandatory class that this seed happened not to draw gets up to three further passes (seeds derived from
+    # VERIF_SEED, so the run stays a function of it); their cases are checked like all others
+    topups = 0
+    while not failures and n_examples > 0 and topups < 3 and [c for c in getattr(mod, "MANDATORY", []) if stats.classes.get(c, 0) == 0]:
+        topups += 1
+        st, f = hypothesis_search(mod, tier, seed * 1000 + 900 + topups, n_examples, known)
+        stats.merge(st)
+        if f is not None:
+            note(f)
+
     # ---- 5. vacuity guard ----------------------------------------------------------------------
     if not failures:
         missing = [c for c in getattr(mod, "MANDATORY", []) if stats.classes.get(c, 0) == 0]
